@@ -866,7 +866,7 @@ def _loop_size(env, ins, outs):
 
 
 @st.composite
-def call_case(draw, ops=None, backends=None, quick=True, simple=False, min_inputs=0):
+def call_case(draw, ops=None, backends=None, quick=True, simple=False, min_inputs=0, factories=False):
     ctx = Ctx(draw, quick)
     ctx.simple = simple
     ctx.min_inputs = min_inputs
@@ -888,8 +888,16 @@ def call_case(draw, ops=None, backends=None, quick=True, simple=False, min_input
             break
         env[big[guard % len(big)]] -= 1
     opts = {k: v for k, v in meta.items() if k in ("shift", "keepdims")}
-    sizes, smeta = compute_sizes(ctx, ins, outs)
+    fmask = None
+    if factories:
+        fmask = [draw(st.integers(0, 3)) == 0 for _ in ins]
+        if not any(fmask):
+            fmask[draw(st.integers(0, len(ins) - 1))] = True
+    extra_eqs = _structural_equations(fam, ins, outs, env)
+    sizes, smeta = compute_sizes(ctx, ins, outs, known_mask=[not f for f in fmask] if fmask else None, extra_eqs=extra_eqs)
     backend = draw(st.sampled_from(backends or BACKENDS))
+    if fmask and all(fmask) and backend is None:
+        backend = "numpy"  # callables alone do not select a backend
     kinds = data_kinds_for(op, len(ins))
     data = []
     for i, e in enumerate(ins):
@@ -922,7 +930,34 @@ def call_case(draw, ops=None, backends=None, quick=True, simple=False, min_input
         "data": data,
         "meta": smeta,
     }
+    if fmask:
+        case["fmask"] = fmask
+        case["protected"] = sorted(ctx.protected)
     return case
+
+
+def _structural_equations(fam, ins, outs, env):
+    """Equations einx adds itself: coordinate counts (get_at / *_at) and the argmax/argmin output axis."""
+    eqs = []
+
+    def br_leaves(e):
+        return [l for l, b in X.walk_leaves(X.expand(e)) if b]
+
+    if fam in ("get_at", "update"):
+        K = len(br_leaves(ins[0]))
+        coords = ins[1:] if fam == "get_at" else ins[1:-1]
+        children = []
+        for e in coords:
+            bl = br_leaves(e)
+            children.append(bl[0] if bl else ["num", 1, "#c"])
+        if children:
+            eqs.append((["cat", children] if len(children) > 1 else children[0], K))
+    elif fam == "argfind":
+        K = len(br_leaves(ins[0]))
+        bl = br_leaves(outs[0])
+        if bl:
+            eqs.append((bl[0], K))
+    return eqs
 
 
 def build_arrays(case):
